@@ -66,6 +66,30 @@ def eq(a, b):
     return a == b
 
 
+def to_bytes(x):
+    """bytes(x) that also works when __bytes__ returns symbolic bytes."""
+    from .shims import sx_bytes
+
+    return sx_bytes(x)
+
+
+def deep_eq(a, b):
+    """Non-forking structural equality incl. dataclass instances and objects with __dict__."""
+    import dataclasses
+
+    if dataclasses.is_dataclass(a) and not isinstance(a, type):
+        if type(a) is not type(b):
+            return False
+        return And(*[deep_eq(getattr(a, f.name), getattr(b, f.name)) for f in dataclasses.fields(a)])
+    if isinstance(a, (list, tuple)):
+        if not isinstance(b, (list, tuple)) or len(a) != len(b):
+            return False
+        return And(*[deep_eq(x, y) for x, y in zip(a, b)])
+    if a is None or b is None:
+        return a is b
+    return eq(a, b)
+
+
 def run(coro):
     """Drive a coroutine that must not suspend."""
     try:
